@@ -401,7 +401,16 @@ impl Scala {
         indent: usize,
         comment: &str,
     ) -> std::io::Result<()> {
-        writeln!(w, "{}// {}", "\t".repeat(indent), comment)?;
+        // A doc comment written as `/** .. */` or `#[doc = ".."]` may span lines: every line
+        // has to be a comment line of its own.
+        for line in comment.split('\n') {
+            writeln!(
+                w,
+                "{}// {}",
+                "\t".repeat(indent),
+                line.trim_end_matches('\r')
+            )?;
+        }
         Ok(())
     }
 
